@@ -157,6 +157,34 @@ func cmdCheck(args []string) int {
 			}
 		}
 	}
+	// ground obligations: global invariants evaluated on the values the real init() produced
+	groundOK, groundFail := []string{}, []string{}
+	usedPkgs := map[string]bool{}
+	for _, c := range cons {
+		if fn := e.funcs[c.Key]; fn != nil {
+			x := &FnExec{fn: fn}
+			for k := range x.usedGlobals() {
+				for pkgPath := range e.cs.Globals {
+					if strings.HasPrefix(k, pkgPath+".") {
+						usedPkgs[pkgPath] = true
+					}
+				}
+			}
+		}
+	}
+	for _, pkgPath := range sortedKeys(usedPkgs) {
+		okL, failL, err := e.GroundCheck(pkgPath, scratch)
+		if err != nil {
+			fmt.Fprintln(os.Stderr, "ENGINE FAULT:", err)
+			return 2
+		}
+		for _, n := range okL {
+			groundOK = append(groundOK, shortName(pkgPath)+"."+n)
+		}
+		for _, n := range failL {
+			groundFail = append(groundFail, shortName(pkgPath)+"."+n)
+		}
+	}
 	// canaries: deliberately false contracts that must NOT verify
 	canaryObls, canaryNames := e.CanaryObligations(prop)
 	results := solveAll(append(append([]*Obligation{}, obls...), canaryObls...), scratch, timeout, 16)
@@ -323,6 +351,13 @@ func cmdCheck(args []string) int {
 		}
 		violLines = append(violLines, line)
 	}
+	for _, gf := range groundFail {
+		nViol++
+		path := filepath.Join(replayDir, "ground_"+sanitizeFile(gf)+".json")
+		writeJSON(path, map[string]any{"ground_obligation": gf, "confirmed_on_real_code": true,
+			"note": "the package-level value produced by the real init() does not satisfy the invariant every contract of the package assumes"})
+		violLines = append(violLines, fmt.Sprintf("VIOLATION property=%s replay=%s", prop, path))
+	}
 	// functions that could not be analysed, or baseline claims with no obligation left
 	for f, errs := range fnErrors {
 		hasBase := false
@@ -403,12 +438,13 @@ func cmdCheck(args []string) int {
 	ev := Evidence{PropertyID: prop, Tier: tier, Seed: seed, Level: "proof", WallS: time.Since(t0).Seconds(), Violations: nViol,
 		Assumptions: assumptions,
 		Coverage: map[string]any{
-			"obligations": claimedObls, "discharged": discharged,
+			"obligations": claimedObls + len(groundOK) + len(groundFail), "discharged": discharged + len(groundOK),
 			"checker_cmd":              fmt.Sprintf("/verif/bin/govc check %s %s", prop, tier),
 			"trusted_base":             trusted,
 			"functions_under_contract": funcsUnder,
 			"functions":                len(funcsUnder),
 			"lemma_obligations":        nLemma,
+			"ground_obligations":       map[string]any{"checked_on_real_init": groundOK, "failed": groundFail},
 			"by_solver":                bySolver,
 			"solver_time_s":            solverTime,
 			"load_time_s":              loadS,
